@@ -14,6 +14,85 @@ FS_MUT = (r"fs::(remove_file|remove_dir|remove_dir_all|rename|write|create_dir|c
 JOIN_RX = r"thread::JoinHandle::<T>::join$|thread::ScopedJoinHandle"
 
 
+def r14_4(ctx, rep):
+    """R14.4: the worker serves its channel in order across request kinds."""
+    rep.rule("R14.4", "the worker takes no further request from its channel while a received request that is not a Write is still unhandled "
+                      "(it is handed, whole, to the function that executes non-Write requests before the next recv / try_iter().next()): a "
+                      "Write queued behind a RemoveChunks / AppendFile is never written or acknowledged ahead of it, so 'the last flush "
+                      "was acknowledged' implies every earlier request has been executed")
+    wk, _, _ = ctx.worker_entry()
+    g = ctx.graph(wk)
+    P = ctx.product(wk)
+
+    def is_recv(n):
+        t = g.term(n)
+        if cmatch(t, r"mpsc::Receiver::<T>::(recv|try_recv|recv_timeout)$"):
+            return True
+        if cmatch(t, r"iter::Iterator>?::next$"):
+            a = event_args(g, n)
+            return bool(a) and contains(strip_ids(a[0]), lambda x: call_is(x, r"mpsc::Receiver::<T>::(try_iter|iter)$"))
+        return False
+    recvs = {n for n in P.calls(None) if is_recv(n)}
+    # handler instances: inlined crate-local functions that take a whole request by value
+    handlers = set()
+    for n, sub in g.callee_inst.items():
+        b = sub.body
+        tys = [l.get("ty", "") for l in b.get("locals", [])[1:1 + b.get("argc", 0)]]
+        if any(re.search(r"(^|[^&\w])(raft_log::wal::flush_request::)?WorkerRequest<", t) and not t.startswith("&") for t in tys):
+            handlers.add(n)
+    handler_inst = {g.callee_inst[n].id for n in handlers}
+    if not rep.expect("R14.4", "receive sites and the non-Write handler in the worker", len(recvs) >= 2 and len(handlers) >= 1,
+                      "found %d receive sites, %d handler call(s)" % (len(recvs), len(handlers)), where=g.where(g.entry)):
+        return
+
+    def inside_handler(n):
+        i = g.inst(n)
+        while i is not None:
+            if i.id in handler_inst:
+                return True
+            i = i.parent
+        return False
+    # classification sites: switches on the `.req` of a received item, outside the handler
+    cls = {}
+    for pi, es in P.succ.items():
+        n = P.gnode(pi)
+        if inside_handler(n):
+            continue
+        for qi, learn in es:
+            for o, v in norm_learn(learn or []):
+                if isinstance(o, tuple) and o and o[0] == "place":
+                    e = origin_place_expr(g, o)
+                    if e is not None and is_field(strip_ids(e), "req") and contains(strip_ids(e), lambda x: call_is(x, r"Receiver::<T>::recv$|Iterator>?::next$")):
+                        cls.setdefault(n, o)
+
+    def step(ms, pi, qi, learn):
+        n = P.gnode(pi)
+        if n in handlers:
+            ms = "clear"
+        if n in recvs:
+            if ms == "owed":
+                return "VIOL"
+            ms = "clear"
+        if ms == "VIOL":
+            return ms
+        if n in cls:
+            got = [v for o, v in norm_learn(learn or []) if o == cls[n]]
+            if "Write" not in got:
+                ms = "owed"
+        return ms
+    seen = run_monitor(P, "clear", step)
+    bad = next(((pi, ms) for (pi, ms) in seen if ms == "VIOL"), None)
+    if bad:
+        rep.violation("R14.4", "worker|request-overtaken-by-later-requests", "worker request loop",
+                      "after receiving a request that is not a Write the worker goes on taking requests from the channel before executing it: "
+                      "later Writes are written and acknowledged first, so an acknowledged last flush no longer implies that earlier removals "
+                      "/ file switches have been done", where=g.where(P.gnode(bad[0])),
+                      path=describe_path(P, [k_[0] for k_ in path_to(seen, bad)]))
+    else:
+        rep.ok("R14.4", "worker request loop", "%d receive site(s), %d classification site(s), %d handler call(s): a non-Write request is executed "
+               "before the next receive on every path" % (len(recvs), len(cls), len(handlers)), where=g.where(g.entry))
+
+
 def run(ctx, rep):
     rep.rule("R14.1", "a directory-mutating effect of the worker that can follow the acknowledgement of the last flush (a request sent after the "
                       "callback-carrying one; a file mutation after Callback::send in the same worker iteration) is allowed only if dropping "
@@ -119,6 +198,9 @@ def run(ctx, rep):
                       "the directory lock was released, possibly while another instance owns the directory" % cpath(gw.term(n)), where=gw.where(n))
     if not late:
         rep.ok("R14.3", "worker quit path", "no file mutation after the channel was found closed", where=gw.where(gw.entry))
+
+    # ---------------- R14.4 -------------------------------------------------------------
+    r14_4(ctx, rep)
 
     # ---------------- R14.2 -------------------------------------------------------------
     for d in drops:
